@@ -74,6 +74,7 @@ class Ref:
         self.training = True
         sd = {k: v.numpy().copy() for k, v in m.state_dict().items()}
         self.sd = sd
+        self.initialized = False  # model state of ActNorm (tracked by the automaton itself, not read from the layer)
 
     def step(self, op, B):
         """returns expectation dict: {'raises': type|None, 'check': callable(real outputs, real state_dict) -> msg|None}"""
@@ -89,7 +90,7 @@ class Ref:
         b = B[op[-1]]
         if s.startswith("ActNorm"):
             hw = b.shape[2] * b.shape[3] if b.dim() == 4 else 1
-            if op.startswith("fwd") and self.training and not bool(self.sd["initialized"]):
+            if op.startswith("fwd") and self.training and not self.initialized:
                 return {"raises": None, "actnorm_init": True, "hw": hw}
             ls, sh = self.sd["log_scale"], self.sd["shift"]
             shp = (1, -1, 1, 1) if b.dim() == 4 else (1, -1)
@@ -185,12 +186,13 @@ def run_history(subj, hist):
             mean, v1, v0 = pf.mean(0), pf.var(0, ddof=1), pf.var(0, ddof=0)
             if not close(mean, 0 * mean, 1e-9) or not (close(v1, 1 + 0 * v1, 1e-9) or close(v0, 1 + 0 * v0, 1e-9)):
                 return ("init", "initialising batch not normalised", "%s: outputs of the initialising batch have per-feature mean %s and variance %s" % (where, mean.tolist(), v1.tolist())), info
-            if not bool(real_sd["initialized"]):
+            if "initialized" in real_sd and not bool(real_sd["initialized"]):
                 return ("init", "initialised flag not set", "%s: data-dependent initialisation ran but `initialized` is still False" % where), info
             hw = exp["hw"]
             if not close(ld.numpy(), np.full(y.shape[0], hw * real_sd["log_scale"].sum())):
                 return ("init", "logabsdet inconsistent with the chosen scale", "%s: logabsdet %s vs h*w*sum(log_scale) %r" % (where, ld.tolist(), hw * real_sd["log_scale"].sum())), info
             ref.sd = real_sd  # read the chosen parameters back once; they must never change again
+            ref.initialized = True
             continue
         if "bn_train" in exp:
             info["train_fwd"] = True
